@@ -18,7 +18,8 @@ def run(ctx):
         "samples": [cc.describe(r) for r in samples[:10]],
         "families": stats["fams"], "shards": stats["shards"], "open_outcomes": stats["open"],
         "tlc_states": stats["states"], "tlc_wall_s": round(stats["tlc_s"], 1), "groups": by_group,
-        "exhaustive": ["all 256 patterns of every 1-byte type/bit range/TTx", "BDA: every day 2000-2099"] +
+        "exhaustive": False,      # exhaustive sub-domains are listed below; 3/4-byte types and strings are sampled
+        "exhaustive_subdomains": ["all 256 patterns of every 1-byte type/bit range/TTx", "BDA: every day 2000-2099"] +
                       (["all 65536 patterns of every 2-byte type x divisor", "every date type: every day 2000-2099",
                         "DAY, MIN, BTM/HTM/VTM, TEM_P: all 65536", "BTI/HTI/VTI: all 86401 valid times"] if ctx.thorough else
                        ["MIN 0..1500", "2-byte types: stratified 4096(+boundaries) sample"]),
